@@ -14,13 +14,13 @@ theorem chopR_line (p : Parser) (e : Nat) (he : eolR (rest p) = some e) (hlt : e
   rw [if_neg (by omega)]
 
 theorem chopR_stash0 (p : Parser) (he : eolR (rest p) = none) :
-    chopR p = ((stashRest p 0).1, some .need) := by
+    chopR p = ((stashRest p false).1, some .need) := by
   unfold rest at he
   unfold chopR
   rw [he]
 
 theorem chopR_stash1 (p : Parser) (e : Nat) (he : eolR (rest p) = some e) (hge : e ≥ (rest p).length) :
-    chopR p = ((stashRest p 1).1, some .need) := by
+    chopR p = ((stashRest p true).1, some .need) := by
   unfold rest at he hge
   unfold chopR
   rw [he]
@@ -55,11 +55,14 @@ theorem line_spec (p : Parser) (A : Abs) (h : Pre p A) (hp : A.sc.pend = false) 
       have := good_head _ _ hgood2
       unfold okAt at this
       simp at this
-      rw [hsc.2.1, hseglen] at this; exact this.1
+      rw [hsc.2.1, hseglen] at this; exact this
     have hlen : p.stash.length + e < stashSize := by
-      have := h.inv.2; rw [← h.rel.stash] at this
+      have := h.inv.2.1; rw [← h.rel.stash] at this
       unfold stashSize; omega
     have hq := takeLine_eq p e hlen
+    have hu : (takeLine p e).eolp = false := by
+      rw [takeLine_eolp]; exact rel_unmarked p A h.rel hp
+    have hmk : (takeLine p e).eolp = true ↔ ({} : Sc).pend = true := by rw [hu]
     have hrq : rest (takeLine p e) = d :: r' := by rw [rest_takeLine, hd]
     have hpend2 : (runA A ((rest p).take e)).sc.pend = true := by rw [runA_sc]; exact hsc.1
     have hstash2 : (takeLine p e).stash = (runA A ((rest p).take e)).cur := by
@@ -81,7 +84,7 @@ theorem line_spec (p : Parser) (A : Abs) (h : Pre p A) (hp : A.sc.pend = false) 
     · rw [if_pos hne, book_proc]
       have hcur : (runA A ((rest p).take e)).cur ≠ [] := by
         rw [← hstash2]; intro hx; rw [hx] at hne; exact hne rfl
-      have hb := bookProc_spec (takeLine p e) _ hstash2 hcomp2 hlog2 hcur
+      have hb := bookProc_spec (takeLine p e) _ hstash2 hcomp2 hlog2 hcur hu
       rw [hins2] at hb
       have hrest : rest (bookProc (takeLine p e) A.ins).1 = d :: r' := by
         unfold rest; rw [hb.2.2.1, hb.2.2.2]; exact hrq
@@ -98,7 +101,7 @@ theorem line_spec (p : Parser) (A : Abs) (h : Pre p A) (hp : A.sc.pend = false) 
       refine ⟨takeLine p e, A.ins, flushA (runA A ((rest p).take e)), rfl, ⟨?_, flushA_inv _, ?_, ?_⟩,
         ?_, ?_, ?_⟩
       · rw [hfl]
-        exact ⟨hstash2, hcomp2, hlog2, fun hx => absurd hcur hx⟩
+        exact ⟨hstash2, hcomp2, hlog2, hmk⟩
       · rw [hrq]; exact hgood3
       · rw [hrq]; exact hnb3
       · rw [hrq]; simp
